@@ -6,21 +6,27 @@ from . import core, generic
 
 def check(run):
     run._binary = run.build_harness()
-    n, s = generic.gen_replay(run, "Negotiation", "MC_Negotiation.cfg" if run.tier == "thorough" else "MC_Negotiation_quick.cfg", "TestC09", "negotiation")
-    if s["cases"] != n:
-        raise core.Inconclusive("driver did not consume every case")
+    n, s = 0, collections.Counter()
+    for cfg, name in ((("MC_Negotiation.cfg", "negotiation"), ("MC_Negotiation_wide.cfg", "negotiation_wide")) if run.tier == "thorough" else (("MC_Negotiation_quick.cfg", "negotiation"),)):
+        n1, s1 = generic.gen_replay(run, "Negotiation", cfg, "TestC09", name, heap="12g")
+        if s1["cases"] != n1:
+            raise core.Inconclusive("driver did not consume every case")
+        n += n1
+        for k, v in s1.items():
+            if isinstance(v, int):
+                s[k] += v
     run.evaluations = 4 * n
     run.traces = n
     run.nontrivial = s["picked"] + s["token_list_picked"]
     run.exhaustive = True
-    run.rule = ("TLC enumerates every Accept header of <= 2 (thorough: 3) ranges over {*/*, text/*, text/html, text/plain, application/json} x q-values x "
-                "parameter sets and every offer list of <= 2 (3) offers (MIME types with and without parameters, file extensions) and computes the offer the "
+    run.rule = ("TLC enumerates every Accept header of <= 2 ranges (thorough: <= 3 ranges x <= 2 offers, and <= 2 ranges over a wider q / parameter pool x <= 3 offers) over "
+                "{*/*, text/*, text/html, text/plain, application/json} x q-values x parameter sets and every offer list (MIME types with and without parameters, file extensions) and computes the offer the "
                 "RFC 9110 preference order selects (plus ZeroNeverSelects / AbsentSelectsFirst on the function); each case is serialised in 4 spellings "
                 "(OWS, q=0.5/0.500, quoted parameter values, duplicated range) and given to Accepts (twice, pooled context) and Format. "
                 "Token lists: every header of <= 3 (4) ranges over three tokens and * x q-values and every offer list, decided by the same order, "
                 "given to AcceptsCharsets, AcceptsEncodings and AcceptsLanguages with real token names. "
                 "Non-trivial = cases in which an offer is selected.")
-    run.extra["driver_summary"] = s
+    run.extra["driver_summary"] = dict(s)
     run.extra["violations_by_check"] = dict(collections.Counter(v["check"] for v in run.violations))
     run.assumptions = ["tokens are lower-case (the statement does not promise case-insensitive matching)",
                        "token lists: the three tokens are no prefixes of one another (the code's prefix rule for tokens, e.g. language ranges, is outside the statement)"]
